@@ -5,9 +5,9 @@ use fancy_regex::Regex;
 use serde_json::json;
 use std::borrow::Cow;
 
-const SYMS: [&str; 40] = [
+const SYMS: [&str; 42] = [
     "\\", ".", "+", "*", "?", "(", ")", "|", "[", "]", "{", "}", "^", "$", "#", "-", "&", "~", "!", "\"", "%", "'", ",", "/", ":", ";", "<", "=", ">", "@", "_", "`", "a", "1", " ", "\n", "é", "€",
-    "😀", "b",
+    "😀", "b", "ß", "ﬁ",
 ];
 /// what needs escaping (regex meta-characters plus `#`), stated independently of the crate
 const META: &str = "\\.+*?()|[]{}^$#";
@@ -218,6 +218,45 @@ fn hosts() -> Vec<Host> {
             },
             applies: |_| true,
         },
+        // E as the last element of an atomic body behind a hard element and a variable piece that
+        // may have to give characters back to E (inside the body backtracking is allowed)
+        Host {
+            name: "(?>(?!!)[ab]*E)",
+            build: |e| format!("(?>(?!!)[ab]*{})", e),
+            expect: |t, s, from| {
+                for p in (from..=t.len()).filter(|&i| t.is_char_boundary(i)) {
+                    if t[p..].starts_with('!') {
+                        continue;
+                    }
+                    let run = t[p..].bytes().take_while(|b| *b == b'a' || *b == b'b').count();
+                    for k in (0..=run).rev() {
+                        if t[p + k..].starts_with(s) {
+                            return Some(vec![Some((p, p + k + s.len()))]);
+                        }
+                    }
+                }
+                None
+            },
+            applies: |_| true,
+        },
+        Host {
+            name: "(?=(?!!)[ab]*?E)[ab]?",
+            build: |e| format!("(?=(?!!)[ab]*?{})[ab]?", e),
+            expect: |t, s, from| {
+                for p in (from..=t.len()).filter(|&i| t.is_char_boundary(i)) {
+                    if t[p..].starts_with('!') {
+                        continue;
+                    }
+                    let run = t[p..].bytes().take_while(|b| *b == b'a' || *b == b'b').count();
+                    if (0..=run).any(|k| t[p + k..].starts_with(s)) {
+                        let one = if run > 0 { 1 } else { 0 };
+                        return Some(vec![Some((p, p + one))]);
+                    }
+                }
+                None
+            },
+            applies: |_| true,
+        },
         Host { name: "(?x:E)", build: |e| format!("(?x:{})", e), expect: |t, s, from| occ(t, s, from).map(|p| vec![Some((p, p + s.len()))]), applies: |s| !s.chars().any(|c| c.is_whitespace()) },
         Host { name: "(?i:E)x?", build: |e| format!("(?i:{})x?", e), expect: |t, s, from| occ(t, s, from).map(|p| vec![Some((p, p + s.len() + if t[p + s.len()..].starts_with('x') { 1 } else { 0 }))]), applies: |s| !s.chars().any(|c| c.is_alphabetic()) },
     ]
@@ -336,7 +375,7 @@ pub fn run(ctx: &Ctx) -> Outcome {
     let mut out = Outcome::new(acc);
     out.distinct_nontrivial = out.acc.distinct;
     out.exhaustive = true;
-    out.rule = format!("all strings of length <= {} over {} symbols (every ASCII punctuation character incl. all regex meta-characters, a b 1 space newline é € 😀) plus {} seeded random strings of length 3-10; for each s: Cow::Borrowed iff s contains none of \\.+*?()|[]{{}}^$# ; Regex::new(host(escape(s))) compiles for {} hosts (E, (?:E), (E)\\1, (?=E)E, [ab]*E, (?<=E), (?>E)c?, (?:E){{2}}, (?!E)., (?<!-)[ab]E, E\\d?(?=), (?<=E)E, (?<=E)., (?=.?)E(?:(?=c)c|)*(?!!), (?!!)(E)(?:(?=c)c|)*?(?![c])\\1?, (?<=(?>E))E, (?m:(?!!)^E(?!!)), (?m:(?=)E$(?=)), (?x:E) for whitespace-free s, (?i:E)x? for letter-free s) and on texts u+s+v, s+s, s with its last character altered the captures equal what plain string search predicts, for a search from the start and from every later character boundary. Non-trivial: distinct strings containing a meta-character.", maxlen, SYMS.len(), n_random, hs_count);
+    out.rule = format!("all strings of length <= {} over {} symbols (every ASCII punctuation character incl. all regex meta-characters, a b 1 space newline é € 😀 ß ﬁ) plus {} seeded random strings of length 3-10; for each s: Cow::Borrowed iff s contains none of \\.+*?()|[]{{}}^$# ; Regex::new(host(escape(s))) compiles for {} hosts (E, (?:E), (E)\\1, (?=E)E, [ab]*E, (?<=E), (?>E)c?, (?:E){{2}}, (?!E)., (?<!-)[ab]E, E\\d?(?=), (?<=E)E, (?<=E)., (?=.?)E(?:(?=c)c|)*(?!!), (?!!)(E)(?:(?=c)c|)*?(?![c])\\1?, (?<=(?>E))E, (?>(?!!)[ab]*E), (?=(?!!)[ab]*?E)[ab]?, (?m:(?!!)^E(?!!)), (?m:(?=)E$(?=)), (?x:E) for whitespace-free s, (?i:E)x? for letter-free s) and on texts u+s+v, s+s, s with its last character altered the captures equal what plain string search predicts, for a search from the start and from every later character boundary. Non-trivial: distinct strings containing a meta-character.", maxlen, SYMS.len(), n_random, hs_count);
     out.assumptions = vec!["'needs escaping' is the set \\.+*?()|[]{}^$# (regex meta-characters plus the comment character #)".into()];
     out
 }
